@@ -1,8 +1,8 @@
 #!/bin/bash
 # runs every thorough command sequentially with a per-property cap; prints a summary line each
 bash tools/build.sh >/dev/null 2>&1
-for p in C01 C05 C11 C14; do
-  s=$(date +%s); timeout 55m ./bin/vcheck run -tier thorough -j 12 $p > thorough_$p.log 2>&1; rc=$?; e=$(date +%s)
+for p in C20 C09 C10 C12 C16 C18 C15 C13 C17 C07 C01 C11 C08 C19 C03 C04 C02 C05 C14; do
+  s=$(date +%s); timeout 55m ./bin/vcheck run -tier thorough -j 10 $p > thorough_$p.log 2>&1; rc=$?; e=$(date +%s)
   echo "$p exit=$rc $((e-s))s known=$(grep -c '^KNOWN' thorough_$p.log) viol=$(grep -c '^VIOLATION' thorough_$p.log) inconcl=$(grep -c '^INCONCLUSIVE' thorough_$p.log)"
   grep -E "^INCONCLUSIVE|^VIOLATION" thorough_$p.log | cut -c1-220 | head -8
 done
